@@ -56,6 +56,8 @@ pub enum Error {
     UnexpectedChar(String, usize),
     #[error("comma required at {0}")]
     CommaRequired(usize),
+    #[error("digit required at {0}")]
+    DigitRequired(usize),
     #[error("unexpressible decimal {0}")]
     InvalidDecimal(#[from] rust_decimal::Error),
 }
@@ -127,6 +129,7 @@ impl FromStr for PrettyDecimal {
         let mut scale: Option<u32> = None;
         let mut prefix_len = 0;
         let mut sign = 1;
+        let mut num_digits: usize = 0;
         let aligned_comma = |offset, cp, pos| match (cp, pos) {
             (None, _) if pos > offset && pos <= 3 + offset => true,
             _ if cp == Some(pos) => true,
@@ -138,11 +141,13 @@ impl FromStr for PrettyDecimal {
                     prefix_len = 1;
                     sign = -1;
                 }
-                (_, _, b',') if aligned_comma(prefix_len, comma_pos, i) => {
+                (_, _, b',') if scale.is_none() && aligned_comma(prefix_len, comma_pos, i) => {
                     format = Some(Format::Comma3Dot);
                     comma_pos = Some(i + 4);
                 }
-                (_, _, b'.') if comma_pos.is_none() || comma_pos == Some(i) => {
+                (_, _, b'.')
+                    if scale.is_none() && (comma_pos.is_none() || comma_pos == Some(i)) =>
+                {
                     scale = Some(0);
                     comma_pos = None;
                 }
@@ -153,13 +158,23 @@ impl FromStr for PrettyDecimal {
                     if scale.is_none() && format.is_none() && i >= 3 + prefix_len {
                         format = Some(Format::Plain);
                     }
-                    mantissa = mantissa * 10 + (c as u32 - '0' as u32) as i128;
+                    mantissa = mantissa
+                        .checked_mul(10)
+                        .and_then(|m| m.checked_add((c as u32 - '0' as u32) as i128))
+                        .ok_or(rust_decimal::Error::ExceedsMaximumPossibleValue)?;
                     scale = scale.map(|x| x + 1);
+                    num_digits += 1;
                 }
                 _ => {
                     return Err(Error::UnexpectedChar(try_find_char(s, i, c), i));
                 }
             }
+        }
+        match comma_pos {
+            // the last comma separated group must have exactly 3 digits.
+            Some(cp) if cp != s.len() => return Err(Error::DigitRequired(s.len())),
+            _ if num_digits == 0 => return Err(Error::DigitRequired(s.len())),
+            _ => (),
         }
         let value = Decimal::try_from_i128_with_scale(sign * mantissa, scale.unwrap_or(0))?;
         Ok(Self { format, value })
